@@ -45,7 +45,7 @@ CONF = {
     "C09": dict(kinds={"position", "boundary"},
                 quick=[("position", {}, 1.0)], thorough=[("position", {}, 1.0), ("ws", {"ws_inject": True}, 0.3)]),
     "C10": dict(kinds={"errpos", "errpos_far", "errspec", "errspec_sentinel"},
-                quick=[("errors", {}, 1.0)], thorough=[("errors", {}, 1.0), ("core", {}, 1.0), ("leftrec", {}, 0.5), ("memo", {}, 0.3)]),
+                quick=[("errors", {}, 0.8), ("leftrec", {}, 0.3)], thorough=[("errors", {}, 1.0), ("core", {}, 1.0), ("leftrec", {}, 0.5), ("memo", {}, 0.3)]),
     "C13": dict(kinds={"variant", "accept", "tree", "position"},
                 quick=[("include", {"inline_variants": True, "grammar_scale": 0.6}, 1.0)],
                 thorough=[("include", {"inline_variants": True, "grammar_scale": 0.6}, 1.0)]),
@@ -132,10 +132,11 @@ def compile_signature(msg):
 def check_C03(tier, seed):
     out = Outcome("C03", tier, seed)
     runs = [("types", {"assert_types": True, "derive_variants": True, "grammar_scale": 0.5}, 1.0),
-            ("keywords", {"assert_types": True, "grammar_scale": 0.3}, 1.0)]
+            ("keywords", {"assert_types": True, "grammar_scale": 0.3}, 1.0),
+            ("userfn", {"assert_types": True, "grammar_scale": 0.15}, 1.0)]
     if tier == "thorough":
         runs += [("fields", {"assert_types": True, "grammar_scale": 0.3}, 1.0),
-                 ("userfn", {"assert_types": True, "grammar_scale": 0.2}, 1.0),
+                 ("memo", {"assert_types": True, "grammar_scale": 0.2}, 1.0),
                  ("leftrec", {"assert_types": True, "grammar_scale": 0.2}, 1.0)]
     evaluations = 0
     shapes = set()
